@@ -125,6 +125,15 @@ def check_mesh(ctx, cfg, with_model=True):
     with dev.translation(-3.0 * dev.layer.coherence_length, 1.5 * dev.layer.coherence_length):
         first = first or check_device_mesh(ctx, dict(cfg, moved="translation-context"), dev, with_model=False)
     first = first or check_device_mesh(ctx, dict(cfg, moved="after-translation-context"), dev, with_model=False)
+    # asking a mesh for a smoothed copy leaves the mesh itself the dual of the device domain it was
+    pts_before = dev.mesh.sites.copy()
+    smoothed = dev.mesh.smooth(4)
+    if not np.array_equal(pts_before, dev.mesh.sites) or np.shares_memory(smoothed.sites, dev.mesh.sites):
+        rp = dict(cfg, max_site_shift=float(np.abs(pts_before - dev.mesh.sites).max()))
+        ctx.fail("smooth-moves-the-mesh-it-was-called-on", f"Mesh.smooth moved the sites of the mesh it was called on by up to {rp['max_site_shift']:.3g} (its edges, areas and dual are those of the old positions)", rp)
+        first = first or dict(key="smooth-moves-the-mesh-it-was-called-on", what="smooth mutates its input", **rp)
+    else:
+        first = first or check_device_mesh(ctx, dict(cfg, moved="after-smooth-was-called-on-its-mesh"), dev, with_model=False)
     return first
 
 
